@@ -54,8 +54,54 @@ def extract(repo):
     return {"sync": pair.findall(sb), "async": pair.findall(ab)}
 
 
+TD = "crates/emmylua_ls/src/handlers/text_document/text_document_handler.rs"
+WM = "crates/emmylua_ls/src/context/workspace_manager.rs"
+
+
+def fn_body(s, name):
+    m = re.search(r"\bfn\s+" + name + r"\b([^{;]*)\{", s)
+    if not m:
+        raise RuntimeError(f"fn {name} not found")
+    body, _ = block(s, m.end() - 1)
+    return m.group(1), body
+
+
+def extract_versions(repo):
+    """C27 quantifies over notification sequences, not over LSP version numbers: the model's handlers have no
+    version-dependent behaviour. Check the source agrees:
+      * the three document handlers never read a `version` (no identifier containing `version` except the
+        workspace-diagnostic `update_workspace_version`, no `.version`);
+      * `sync_open_file` / `close_open_file` take no version, return nothing and are unconditional (no `if`, `match`,
+        `return`, `?`), and the only `*version*` name they touch is `open_file_state_version` (the C29 counter);
+      * the handlers call them as plain statements (never inside a condition)."""
+    td = strip_comments(open(os.path.join(repo, TD), encoding="utf-8").read())
+    wm = strip_comments(open(os.path.join(repo, WM), encoding="utf-8").read())
+    reads_version = []
+    for h in ("on_did_open_text_document", "on_did_change_text_document", "on_did_close_document"):
+        _, b = fn_body(td, h)
+        names = set(re.findall(r"\b\w*[vV]ersion\w*\b", b)) - {"update_workspace_version"}
+        if names:
+            reads_version.append(f"{h}: {sorted(names)}")
+        if re.search(r"\b(if|while|match)\b[^;{]*\b(sync_open_file|close_open_file)\s*\(", b) or \
+                re.search(r"=\s*[\w\.]*\b(sync_open_file|close_open_file)\s*\(", b):
+            reads_version.append(f"{h}: result of sync_open_file/close_open_file is used")
+    conditional = []
+    for f in ("sync_open_file", "close_open_file"):
+        sig, b = fn_body(wm, f)
+        if "->" in sig or re.search(r"\bversion\b", sig):
+            conditional.append(f"{f}: signature `{' '.join(sig.split())}`")
+        if re.search(r"\b(if|match|return|while|for)\b|\?", b):
+            conditional.append(f"{f}: body is not straight-line")
+        names = set(re.findall(r"\b\w*[vV]ersion\w*\b", b)) - {"open_file_state_version"}
+        if names:
+            conditional.append(f"{f}: touches {sorted(names)}")
+    return {"handlers_read_version": reads_version, "sync_close_conditional": conditional}
+
+
 def generate(root, repo, log):
     d = extract(repo)
+    v = extract_versions(repo)
+    d["versions"] = v
     q = lambda xs: "[" + ", ".join('"%s"' % x for x in xs) + "]"
     text = "\n".join([
         "/-! GENERATED by checklib/gen/sched_dispatch.py from " + SRC + " on every run — do not edit. -/",
@@ -66,6 +112,10 @@ def generate(root, repo, log):
         "def asyncNotifications : List String := " + q([a for a, _ in d["async"]]), "",
         "/-- handler fn per notification -/",
         "def notificationHandlers : List (String × String) := [" + ", ".join('("%s", "%s")' % p for p in d["sync"] + d["async"]) + "]",
+        "",
+        "/-- the document handlers read an LSP `version` / `sync_open_file`·`close_open_file` are conditional or version-aware -/",
+        "def docHandlersReadVersion : Bool := " + ("true" if v["handlers_read_version"] else "false"),
+        "def syncOpenFileConditional : Bool := " + ("true" if v["sync_close_conditional"] else "false"),
         "", "end Gen", ""])
     out = os.path.join(root, "lean", "EmmyVerif", "Gen", "SchedDispatch.lean")
     os.makedirs(os.path.dirname(out), exist_ok=True)
@@ -74,8 +124,9 @@ def generate(root, repo, log):
     os.makedirs(os.path.join(root, ".work"), exist_ok=True)
     json.dump(d, open(os.path.join(root, ".work", "sched_dispatch.json"), "w"))
     log.append(f"sched_dispatch: sync={[a for a, _ in d['sync']]} async={[a for a, _ in d['async']]}")
-    return {"sync": [a for a, _ in d["sync"]], "async": [a for a, _ in d["async"]]}
+    return {"sync": [a for a, _ in d["sync"]], "async": [a for a, _ in d["async"]], "versions": v}
 
 
 if __name__ == "__main__":
     print(extract(sys.argv[1] if len(sys.argv) > 1 else "/repo"))
+    print(extract_versions(sys.argv[1] if len(sys.argv) > 1 else "/repo"))
